@@ -22,7 +22,7 @@ NOT decided: bitwise determinism of numpy / scipy / numba / rustworkx across mac
 """
 import ast
 
-from ..astutil import call_name, dotted, func_defaults, kwarg, last_name, u
+from ..astutil import call_name, calls, dotted, func_defaults, kwarg, last_name, u
 from ..model import AnalysisError
 
 SEED_FN = "run.instantiate_and_seed_RNG"
@@ -1173,6 +1173,16 @@ def rule_R2(ctx, world, tracer):
         raise AnalysisError("run.run no longer invokes run_phyclone_chain")
     if others:
         raise AnalysisError("run_phyclone_chain is also invoked from %s; R2 only understands run.run" % others)
+    # one worker process per chain: the memoisation caches are module state of the worker, and which entry a cache
+    # serves depends on what ran in that process before; a pool smaller than the number of chains makes a chain's
+    # trace depend on how chains were packed onto workers
+    pools = [c for c in calls(entry.node) if call_name(c).split(".")[-1] == "ProcessPoolExecutor"]
+    spawns = [c for c in calls(entry.node) if isinstance(c.func, ast.Attribute) and c.func.attr == "spawn" and c.args]
+    if len(pools) != 1 or len(spawns) != 1:
+        raise AnalysisError("run.run: expected one ProcessPoolExecutor(...) and one <rng>.spawn(n), found %d / %d" % (len(pools), len(spawns)))
+    mw = kwarg(pools[0], "max_workers") if kwarg(pools[0], "max_workers") is not None else (pools[0].args[0] if pools[0].args else None)
+    ok = mw is not None and u(mw) == u(spawns[0].args[0])
+    ctx.check(ok, "R2", "the pool has one worker process per chain (max_workers is the number of spawned generators)", entry.where(pools[0]), "the pool is created with max_workers=%s while %s chains are started: chains share a worker process and its memoisation caches, so a chain's trace depends on which chains ran before it in that process" % (u(mw) if mw is not None else "<default: number of CPUs>", u(spawns[0].args[0])), construct=entry.qualname, stmt="ProcessPoolExecutor(max_workers=...)")
     # which parameter is the chain number: the one the result carries
     ck = [(fi, d, key, v, ps) for fi, d, key, v, ps in carried_key(world, tracer, chain)]
     if len(ck) != 1:
@@ -2028,6 +2038,8 @@ _M = "phyclone/utils/math.py"
 _T = "phyclone/tree/tree.py"
 _IMP_NP_KB = {"file": _KB, "old": "from phyclone.smc.swarm import Particle\n", "new": "import numpy as np\nfrom phyclone.smc.swarm import Particle\n"}
 SELFTEST = [
+    {"name": "R2-pool-of-four-workers", "kind": "break", "rule": "R2", "file": "phyclone/run.py", "old": "ProcessPoolExecutor(max_workers=num_chains,", "new": "ProcessPoolExecutor(max_workers=min(num_chains, 4),"},
+    {"name": "R2-pool-default-size", "kind": "break", "rule": "R2", "file": "phyclone/run.py", "old": "ProcessPoolExecutor(max_workers=num_chains, mp_context", "new": "ProcessPoolExecutor(mp_context"},
     # ---- R1 / R1f -----------------------------------------------------------------------------------
     {"name": "R1-np-random-shuffle", "kind": "break", "rule": ["R1", "R1f"], "file": _G, "old": "self._rng.shuffle(data_idxs)", "new": "np.random.shuffle(data_idxs)"},
     {"name": "R1-rvs-without-random_state", "kind": "break", "rule": ["R1", "R1f"], "file": _CONC, "old": "eta = beta.rvs(a=old_value + 1, b=n, random_state=self._rng)", "new": "eta = beta.rvs(a=old_value + 1, b=n)"},
